@@ -195,7 +195,7 @@ theorem CSim.value_mem {idx : List (Key × Pos)} {pre : Key} {rev : Bool} {it : 
     exact ⟨x.1, by rw [← hp]; exact hm'⟩
 
 /-- one observation in a later state equals the observation over the creation-time values -/
-theorem see_eq {s0 s : St} {db0 : DB} {g : GDir} (hdb : s0.db = some db0) (hinv : Inv s0 db0 g)
+theorem see_eq {s0 s : St} {db0 : DB} {g : GDir} (hdb : s0.db = some db0) (hinv : SnapOK s0 db0 g)
     (hst : Step s0 s) {pre : Key} {rev : Bool} {it : Iter} {a : Abs Pos}
     (h : CSim (iterOrder rev db0.index) pre rev it a) :
     see s it = (a.mapV (valueAt s0 db0)).obs := by
@@ -215,7 +215,7 @@ theorem see_eq {s0 s : St} {db0 : DB} {g : GDir} (hdb : s0.db = some db0) (hinv 
     simp only [Option.map_some, e4, e5]
 
 /-- **the interleaved transcript is the transcript over the creation-time mapping** -/
-theorem transcript_eq {s0 : St} {db0 : DB} {g : GDir} (hdb : s0.db = some db0) (hinv : Inv s0 db0 g)
+theorem transcript_eq {s0 : St} {db0 : DB} {g : GDir} (hdb : s0.db = some db0) (hinv : SnapOK s0 db0 g)
     (pre : Key) (rev : Bool) (evs : List Ev) :
     ∀ {s : St} {it : Iter} {a : Abs Pos}, Step s0 s → CSim (iterOrder rev db0.index) pre rev it a →
       a.admissible (callsOf evs) = true →
